@@ -10,6 +10,16 @@ BASELINE_OFF = ("for m in $(cat /w/out/gomods.txt); do MF=$(cd /repo/$m && . /w/
 
 # id -> (technique, level text, level note, design ref)
 CHECKS = {
+    "C11": (
+        "TLC proves PoolOp.tla (transcription of commitment.Pool) => PoolRule.tla (declarative rule); transition-covering "
+        "behaviours replayed on the real Pool; real outcomes validated by TLC against TracePoolRule.tla (rule only)",
+        "Exhaustive TLC check of the operational model against the declarative rule for committees <=3+3 with overlapping roles, "
+        "stragglers 0..2, all orders of <=5 commitments and processing calls with/without timeout; every distinct (operation, "
+        "model state) pair replayed on the real pool (plain and CBOR round-tripped); the verdict comes from TLC evaluating the "
+        "rule on recorded real outcomes, including random rounds with committees beyond the design bound.",
+        "Trusted: TLC, JSON bridge. Commitments are pre-verified; 'present' read as agreeing votes. Only the pool and committee "
+        "rank arithmetic are bound; the roothash application's block emission is not (see DESIGN.md).",
+        "DESIGN.md 4 C11"),
     "C20": (
         "TLA+ reference model (TxPool.tla) checked by TLC; TLC-emitted transition-covering behaviours replayed on the real "
         "main queue at three uint64 bases; random traces with priority ties validated by TLC (TraceTxPool.tla)",
